@@ -329,9 +329,11 @@ void execute_queue(const Plan &plan, Verdict &v, Mode mode) {
         std::vector<long> cuts;
         size_t cut_i = 0;
         uint64_t clock = 0;
+        uint64_t ilv = 0;
         for (const Op &op : plan.ops) {
             if (v.violated) break;
             clock += 1;
+            ilv = mix64(ilv * 31 + fnv1a(op.kind) + (op.has_s ? 1 : 0) + (uint64_t) (op.arg(2) ? 2 : 0));
             if (op.kind == "cuts") {
                 cuts = op.a;
                 cut_i = 0;
@@ -429,6 +431,7 @@ void execute_queue(const Plan &plan, Verdict &v, Mode mode) {
         w.observer = nullptr;
         w.err_observer = nullptr;
         g_q = nullptr;
+        if (g_collect) g_sets.add("interleaving", ilv ^ (uint64_t) run.cap);
         v.trace_hash = w.hash();
         v.nontrivial = !plan.ops.empty();
         v.sim_ms = clock;
